@@ -273,8 +273,19 @@ class FIXTester:
 
         assert ord_status != FOrdStatus.CREATED, "CREATED is internal (non FIX) status"
 
+        # OrderID must be the one of the order's execution reports (0 - unknown order)
+        order_id = 0
+        order = self.registered_orders.get(
+            orig_clord_id, self.registered_orders.get(clord_id)
+        )
+        if order is not None:
+            if order.order_id is not None:
+                order_id = order.order_id
+            else:
+                order_id = self._order_ids.get(order.clord_id_root, 0)
+
         m = FIXMessage(FMsg.ORDERCANCELREJECT)
-        m[37] = 0
+        m[37] = order_id
         m[11] = clord_id
         m[41] = orig_clord_id
         m[39] = ord_status
